@@ -563,8 +563,21 @@ def _neutralise_even_root_of_even_power():
     return undo
 
 
+def _neutralise_step_budget():
+    """The rewriter never gives up (step bound raised from 1000 to 10^6)."""
+    *_, = ()
+    import smoothmath._private.base_expression.expression as be
+    cur = be.REDUCTION_STEPS_BOUND
+    be.REDUCTION_STEPS_BOUND = 10 ** 6
+
+    def undo():
+        be.REDUCTION_STEPS_BOUND = cur
+    return undo
+
+
 NEUTRALISERS = {
     "even_root_of_even_power": _neutralise_even_root_of_even_power,
+    "unbounded_reduction_steps": _neutralise_step_budget,
 }
 
 
